@@ -9,8 +9,8 @@ from ..src import AnalysisError, loc, norm, own_nodes, rename_id
 
 POLY = "tdgl.device.polygon"
 DEV = "tdgl.device.device"
-TECH = ("dispatch-table agreement (operator -> method -> shapely operation), alias discipline for the inplace flag, "
-        "who-may-write on the stored vertices, boolean-structure check of device membership")
+TECH = ("methods followed with symbolic operands (set-operation fold, _join_via dispatch, inplace discipline with inplace = True / False, points setter "
+        "chain); deep-copy audit; who-may-write on stored vertices; truth table of device membership")
 
 
 def check(ctx):
